@@ -226,10 +226,16 @@ impl BezPath {
 
                     match Arc::from_svg_arc(&svg_arc) {
                         Some(arc) => {
+                            let n = path.elements().len();
                             // TODO: consider making tolerance configurable
                             arc.to_cubic_beziers(0.1, |p1, p2, p3| {
                                 path.curve_to(p1, p2, p3);
                             });
+                            if path.elements().len() == n {
+                                // The sweep angle vanished numerically (the end points are much
+                                // closer together than the radii): still reach the end point.
+                                path.line_to(p);
+                            }
                         }
                         None => {
                             path.line_to(p);
@@ -472,7 +478,10 @@ impl Arc {
         let rypx = ry * p.x;
         let sum_of_sq = rxpy * rxpy + rypx * rypx;
 
-        debug_assert!(sum_of_sq != 0.0);
+        // The half chord can be non-zero and still underflow here.
+        if sum_of_sq == 0.0 {
+            return None;
+        }
 
         // F6.5.2
         let sign_coe = if arc.large_arc == arc.sweep {
